@@ -191,7 +191,7 @@ PROPS["C03"] = {
     "assumptions": ["README 'Scalar Types': all number types (ints, floats, decimal) may be quoted or unquoted; base64 URL or standard, with or without padding"],
     "lanes": [
         lane("TestSpelling", "spelling", 800, 4000, shards=16, must_classes=["var:bare-int64", "var:base64-url", "var:enum-with-prefix", "var:timestamp-offset", "var:explicit-null", "var:reorder"]),
-        lane("TestFault", "fault", 800, 4000, shards=16, must_classes=["fault:two-keys-in-oneof", "fault:type-contradicts-key", "fault:type-contradicts-key:type-last", "fault:unknown-key", "pos:array-element", "pos:map-value", "pos:oneof-arm"]),
+        lane("TestFault", "fault", 800, 4000, shards=16, must_classes=["fault:two-keys-in-oneof", "fault:type-contradicts-key", "fault:type-contradicts-key:type-last", "fault:unknown-key", "fault:two-members-of-plain-oneof", "pos:array-element", "pos:map-value", "pos:oneof-arm"]),
         lane("TestQuery", "query", 1500, 6000, shards=8, must_classes=["nested-path", "scalar-array"]),
         lane("TestSpellingCompiled", "spelling-j5s", 200, 500, shards=16),
         lane("TestFaultCompiled", "fault-j5s", 200, 500, shards=16),
